@@ -1,6 +1,10 @@
 package main
 
-import "fmt"
+import (
+	"fmt"
+
+	"github.com/willabides/rjson"
+)
 
 // C09 — a handler error stops the traversal and is returned unchanged.
 
@@ -18,13 +22,13 @@ func (c09) Budget(tier string) (int, int) {
 	return 80000, 90
 }
 func (c09) Rule() string {
-	return "fault H-error@k: the simulator-owned handler (as a HandlerFunc adapter or as a struct implementing the interface) returns a chosen error value (pointer sentinel, comparable struct value, io.EOF, slice-/map-/func-typed errors whose dynamic type is not comparable, a typed nil pointer inside a non-nil interface) (or one of 13 error values obtained from the library itself - errUnexpectedEOF, errInvalidArray, errNoValidToken, errPOutOfRange ... - as a handler that passes a reader's error on would) at callback k with an accompanying offset from {0, exact end, the hostile catalogue incl. values near the integer limits}; earlier callbacks decline/consume/run nested traversals from the tape. For containers of <= 32 members every k is enumerated (one scenario per k), larger ones are sampled. Also nested: the error is raised inside a traversal started from a callback and must come back through every level. A run is non-trivial when an error was injected; distinct = distinct hashes of (operation, document class, decisions, k, error kind, offset class)."
+	return "fault H-error@k: the simulator-owned handler (as a HandlerFunc adapter or as a struct implementing the interface) returns a chosen error value (pointer sentinel, comparable struct value, io.EOF, slice-/map-/func-typed errors whose dynamic type is not comparable, a typed nil pointer inside a non-nil interface) (or one of 13 error values obtained from the library itself - errUnexpectedEOF, errInvalidArray, errNoValidToken, errPOutOfRange ... - as a handler that passes a reader's error on would) at callback k with an accompanying offset from {0, exact end, the hostile catalogue incl. values near the integer limits}; earlier callbacks decline/consume/run nested traversals from the tape; half of the traversals pass one Buffer that lives for the whole scenario and has therefore seen aborted calls. For containers of <= 32 members every k is enumerated (one scenario per k), larger ones are sampled. Also nested: the error is raised inside a traversal started from a callback and must come back through every level. A run is non-trivial when an error was injected; distinct = distinct hashes of (operation, document class, decisions, k, error kind, offset class)."
 }
 func (c09) Assumptions() []string {
 	return []string{"error identity is Go interface equality (==) between the returned error and the injected value", "input documents are sampled"}
 }
 func (c09) Required(tier string) []string {
-	return []string{"H-error", "H-nested", "error-is-a-library-error-value", "error-of-uncomparable-type", "error-is-a-typed-nil-pointer", "error-wraps-a-library-error", "struct-handler", "func-adapter-handler", "error-at-scalar-member", "error-at-string-member", "error-at-container-member", "error-offset-near-maxint", "error-in-nested-traversal"}
+	return []string{"H-error", "H-nested", "error-is-a-library-error-value", "error-of-uncomparable-type", "error-is-a-typed-nil-pointer", "error-wraps-a-library-error", "struct-handler", "func-adapter-handler", "error-at-scalar-member", "error-at-string-member", "error-at-container-member", "error-offset-near-maxint", "error-in-nested-traversal", "traversal-with-a-buffer-that-saw-aborted-calls"}
 }
 
 func (c09) Gen(r *Rand, sc *Scenario, tier string) {
@@ -65,7 +69,7 @@ func (c09) Gen(r *Rand, sc *Scenario, tier string) {
 				}
 			}
 			t = append(t, errDec())
-			ops = append(ops, Op{Kind: kindName(obj), Doc: 0, Tape: t, B: r.Intn(2)})
+			ops = append(ops, Op{Kind: kindName(obj), Doc: 0, Tape: t, B: r.Intn(2), A: r.Intn(2)})
 		}
 	} else {
 		k := r.Intn(n + 2)
@@ -75,16 +79,21 @@ func (c09) Gen(r *Rand, sc *Scenario, tier string) {
 		for i := 0; i < 4; i++ {
 			t = append(t, errDec())
 		}
-		ops = append(ops, Op{Kind: kindName(obj), Doc: 0, Tape: t, B: r.Intn(2)})
+		ops = append(ops, Op{Kind: kindName(obj), Doc: 0, Tape: t, B: r.Intn(2), A: r.Intn(2)})
 	}
 	sc.Tasks = [][]Op{ops}
 }
 
 func (c09) Exec(sc *Scenario, st *Stats) *Violation {
+	shared := &rjson.Buffer{} // one Buffer for all traversals of the scenario that ask for one: it has seen aborted calls before
 	for oi, op := range sc.Tasks[0] {
 		doc := sc.Docs[op.Doc].Bytes()
 		e := newHEnv(st, NewTape(op.Tape))
 		e.structH = op.B%2 == 1
+		if op.A == 1 {
+			e.buf = shared
+			st.probe("traversal-with-a-buffer-that-saw-aborted-calls")
+		}
 		st.ev(op.Kind)
 		st.ev(sc.Docs[op.Doc].Class)
 		out := e.traverse(travKind(op.Kind), doc)
